@@ -30,6 +30,9 @@ type c01Input struct {
 	S2 *tk.EPConfig `json:"s2,omitempty"`
 }
 
+// set while the second connection of a pair is emitted: its peer certificates differ from the first connection's although it was resumed
+var c01PeerMismatch bool
+
 var c01Alpn = map[string]int{"h2": 1, "http/1.1": 2, "proto-a": 3, "proto-b": 4, "x": 5}
 
 func c01L(xs []string) string {
@@ -88,7 +91,13 @@ func c01AddCase(out *emit.Out, scenario string, in c01Input) {
 			sc2 = scenario + "-second-connection-reconfigured"
 		}
 		cr2, sr2, hung2, echo2 := c01Connect(scenario, in2, reg)
+		if cr2.Err == "" && sr2.Err == "" && cr2.Resumed && sr2.Resumed &&
+			(strings.Join(cr2.PeerCerts, ",") != strings.Join(cr.PeerCerts, ",") || strings.Join(sr2.PeerCerts, ",") != strings.Join(sr.PeerCerts, ",")) {
+			// a resumed connection reports the peer certificates of the connection that created the session
+			c01PeerMismatch = true
+		}
 		c01EmitSecond(out, sc2, in2, cr2, sr2, hung2, echo2, cr.Suite)
+		c01PeerMismatch = false
 	}
 }
 
@@ -199,13 +208,13 @@ func c01EmitSecond(out *emit.Out, scenario string, in c01Input, cr, sr tk.EPResu
 	if sr.Err == "" {
 		// the client presents its configured pair when asked and acceptable; the model predicts the count
 	}
-	certsMatch := true
+	certsMatch := !c01PeerMismatch
 	if cr.Err == "" {
 		want := []string{}
 		for _, c := range srvCerts {
 			want = append(want, c.Leaf.Subject.CommonName)
 		}
-		certsMatch = strings.Join(cr.PeerCerts, ",") == strings.Join(want, ",")
+		certsMatch = certsMatch && strings.Join(cr.PeerCerts, ",") == strings.Join(want, ",")
 	}
 	if sr.Err == "" && len(sr.PeerCerts) > 0 {
 		for i, cn := range sr.PeerCerts {
